@@ -71,6 +71,8 @@ class FuncContract:
         self.nowrap = False
         self.skip_frame = False
         self.calls = []   # call-site obligations: (callee pattern, Clause)
+        self.seeds = []   # (param, Go expression) extra replay candidates
+        self.seed_imports = {}
         self.inline = False
         self.opts = {}
 
@@ -115,6 +117,8 @@ class ContractSet:
         self.ghosts = {}    # typename (pkg.T) -> {field: typetext}
         self.lemmas = []
         self.files = []
+        self.execs = {}         # (pkg, spec name) -> Go function literal
+        self.exec_imports = {}  # pkg -> {alias: path}
 
     def spec(self, pkg, name):
         return self.specs.get((pkg, name))
@@ -249,7 +253,8 @@ def parse_file(path, cs, repo='/repo', default_pkg=None):
         elif kw == 'prop':
             props = [x.strip() for x in rest.split(',') if x.strip()]
         elif kw in ('func', 'iface'):
-            key = pkg + '::' + rest.strip()
+            from .program import normfn
+            key = normfn(pkg + '::' + rest.strip())
             if key in cs.funcs:
                 raise ValueError('%s:%d: duplicate contract for %s' % (path, n, key))
             cur = FuncContract(key, pkg, path, n)
@@ -341,6 +346,18 @@ def parse_file(path, cs, repo='/repo', default_pkg=None):
                           exprparse.parse(body) if body else None,
                           exprparse.parse(dec) if dec else None, rest, path, n, imports)
             cs.specs[(pkg, name)] = sf
+        elif kw == 'exec':
+            nm, _, code = rest.partition(' ')
+            cs.execs[(pkg, nm)] = code.strip()
+        elif kw == 'exec-import':
+            a, p2 = rest.split()
+            cs.exec_imports.setdefault(pkg, {})[a] = p2
+        elif kw == 'seed':
+            nm, _, code = rest.partition(' ')
+            cur.seeds.append((nm, code.strip()))
+        elif kw == 'seed-import':
+            a, p2 = rest.split()
+            cur.seed_imports[a] = p2
         elif kw == 'ghost':
             mm = re.match(r'^([\w./]+)\.(\w+)\s+(.+)$', rest)
             tname, fld, ftyp = mm.groups()
